@@ -223,6 +223,7 @@ pub fn run_scen(sc: &PScen, strat: &StratSpec, seed: u64, replay: Option<Vec<u32
             times: 0,
             multi: false,
             reg_index: i,
+            expect: false,
         })
         .collect();
     let ctx = Ctx::new(infos, sc.resmap.clone());
